@@ -60,6 +60,18 @@ func checkTree(v amf0ref.Val) error {
 	if err := amf0ref.Equal(rv, v, true); err != nil {
 		return fmt.Errorf("wire content differs from the tree built: %v", err)
 	}
+	// the marshalled bytes belong to the application: overwriting them (and the spare capacity behind them) changes nothing for the library
+	keep := append([]byte(nil), b...)
+	ev.Trash(b)
+	ev.Trash(b2)
+	b3, err := a.MarshalBinary()
+	if err != nil || !bytes.Equal(b3, keep) {
+		return fmt.Errorf("after the application overwrote the bytes of earlier results the tree marshals differently: %d vs %d bytes (first difference at %d), err %v", len(b3), len(keep), firstDiff(b3, keep), err)
+	}
+	b4, err := d.MarshalBinary()
+	if err != nil || !bytes.Equal(b4, keep) {
+		return fmt.Errorf("after the application overwrote the bytes of earlier results the decoded tree marshals differently: %d vs %d bytes (first difference at %d), err %v", len(b4), len(keep), firstDiff(b4, keep), err)
+	}
 	return nil
 }
 
